@@ -175,23 +175,36 @@ def check(case):
                         break
         except Exception as e:
             failures.append(Failure("shuffle-raises", f"second frame: {type(e).__name__}: {e}", exc=e).record())
-    # (5) subset of output partitions
+    # (5) subsets of output partitions (reordered, strided, windows wider than max_branch)
     if n_out >= 2 and not failures:
-        P = sorted({(n_in * 2 + 1) % n_out, (n_out - 1)})
+        mb = case["max_branch"]
+        pair = sorted({(n_in * 2 + 1) % n_out, (n_out - 1)})
         if (n_in + n_out) % 2:
-            P = P[::-1]
-        try:
-            sub = sh.partitions[P].optimize()
-            _, sparts, _, _, _ = plans.execute(sub.expr)
-            if len(sparts) != len(P):
-                fail("subset-npartitions", f"partitions[{P}] computed {len(sparts)} partitions")
-            else:
-                for j, p in zip(P, sparts):
-                    if sorted(p["rid"].tolist()) != sorted(parts[j]["rid"].tolist()):
-                        fail("subset-differs", f"partitions[{P}] -> output partition {j} holds rids {sorted(p['rid'].tolist())[:8]} but the full shuffle has {sorted(parts[j]['rid'].tolist())[:8]}")
-                        break
-        except Exception as e:
-            failures.append(Failure("subset-raises", f"partitions[{P}] of the shuffle raised {type(e).__name__}: {e}", exc=e).record())
+            pair = pair[::-1]
+        subsets = [pair, list(range(n_out))[::-1]]
+        if n_out >= 3:
+            subsets.append(list(range(1, n_out, 2)))
+            w = min(n_out - 1, mb + 2)
+            subsets.append(list(range(1, 1 + w)))
+        seen_sub = []
+        for P in subsets:
+            if P in seen_sub:
+                continue
+            seen_sub.append(P)
+            try:
+                sub = sh.partitions[P].optimize()
+                _, sparts, _, _, _ = plans.execute(sub.expr)
+                if len(sparts) != len(P):
+                    fail("subset-npartitions", f"partitions[{P}] computed {len(sparts)} partitions")
+                else:
+                    for j, p in zip(P, sparts):
+                        if sorted(p["rid"].tolist()) != sorted(parts[j]["rid"].tolist()):
+                            fail("subset-differs", f"partitions[{P}] -> output partition {j} holds rids {sorted(p['rid'].tolist())[:8]} but the full shuffle has {sorted(parts[j]['rid'].tolist())[:8]}")
+                            break
+            except Exception as e:
+                failures.append(Failure("subset-raises", f"partitions[{P}] of the shuffle raised {type(e).__name__}: {e}", exc=e, extra={"subset": P}).record())
+            if failures:
+                break
     stages = math.ceil(math.log(n_in) / math.log(case["max_branch"])) if n_in > 1 else 1
     nt = stages >= 2 or n_in != n_out
     classes = [f"method:{case['method']}", f"key:{key}", "multistage" if stages >= 2 else "singlestage", "grow" if n_out > n_in else ("shrink" if n_out < n_in else "same")]
